@@ -372,6 +372,33 @@ def doc_space_nesting():
   return doc
 
 
+def doc_font_families():
+  """family names that need quoting or escaping"""
+  doc = model.ContentDocument()
+  doc.set_lang("en")
+  body, div, p = _simple(doc)
+  for k, ff in enumerate([("A B", "C,D", styles.GenericFontFamilyType.monospace), ('say "x"', "it's"), ("a\\b", "tail\\"),
+                          (" lead", "default", styles.GenericFontFamilyType.sansSerif, "y")]):
+    sp = model.Span(doc)
+    sp.set_style(SP.FontFamily, ff)
+    sp.push_child(model.Text(doc, "T%d" % k))
+    p.push_child(sp)
+  return doc
+
+
+def doc_line_padding(unit):
+  def mk():
+    doc = model.ContentDocument()
+    doc.set_lang("en")
+    body, div, p = _simple(doc)
+    p.set_style(SP.LinePadding, styles.LengthType(0.5 if unit == "c" else 5, styles.LengthType.Units(unit)))
+    sp = model.Span(doc)
+    sp.push_child(model.Text(doc, "A"))
+    p.push_child(sp)
+    return doc
+  return mk
+
+
 def doc_two_shadows():
   L, U = styles.LengthType, styles.LengthType.Units
   doc = model.ContentDocument()
@@ -388,7 +415,8 @@ def doc_two_shadows():
 STATIC_DOCS = [("styles", doc_styles), ("ruby-with-delimiters", doc_ruby), ("adjacent-text-nodes", doc_adjacent_text),
                ("partial-decoration", doc_partial_decoration), ("cells-32x24", doc_cells(24, 32)), ("cells-40x15", doc_cells(15, 40)),
                ("cells-32x15", doc_cells(15, 32)), ("cells-40x24", doc_cells(24, 40)), ("two-shadows", doc_two_shadows),
-               ("special-none", doc_special_none), ("paddings", doc_paddings), ("space-nesting", doc_space_nesting)]
+               ("special-none", doc_special_none), ("paddings", doc_paddings), ("space-nesting", doc_space_nesting),
+               ("font-families", doc_font_families), ("line-padding-c", doc_line_padding("c")), ("line-padding-rh", doc_line_padding("rh"))]
 
 TIMED = [
   ("timed-simple", [["r1", "b e"]], ["body", "", [["div", "r=r1", [["p", "b e", [S("A", "")]], ["p", "b", [S("B", "c=red")]]]]]]),
@@ -421,7 +449,7 @@ class RoundTripHarness(Harness):
   outside = ("numeric style values beyond the menu (they cross a %g formatting boundary that cannot be symbolic)",
              "frames / clock_time_with_frames syntaxes in the structural round trip (their time arithmetic is c05_times)")
   required_witnesses = ("static", "timed")
-  bounds = {"quick": "12 static documents + 3 timed skeletons (millisecond-grid symbolic times, symbolic query time), writer configs {none, clock_time}",
+  bounds = {"quick": "15 static documents + 3 timed skeletons (millisecond-grid symbolic times, symbolic query time), writer configs {none, clock_time}",
             "thorough": "same"}
   budget_s = {"quick": 280, "thorough": 900}
   validate_models = 3
